@@ -183,6 +183,55 @@ Theorem C11_unknown_param_refused : forall lim v6 qlen raw p,
 Proof. exact unknown_param_refused. Qed.
 Print Assumptions C11_unknown_param_refused.
 
+(* ---- the limit in force is the CURRENT one. The limits are part of the unit's state
+   ([rq_state]: limits + RIB content; [OLimits] = the (re)configuration storing into the
+   cell PrefixesApi shares with the runner, [OUpdate], [ORequest]); [rq_run_with answer]
+   lists the responses of a history. In ANY history, the request that follows
+   [OLimits l] (with no other OLimits in between) is answered as a unit configured with
+   [l] answers on the RIB content of that moment, whatever the limits were before - in
+   particular when the API object was created; without any OLimits before it, by the
+   initial limits. Holds for the code's answer, the exact-store answer and the property's. *)
+Theorem C11_limit_is_current : forall answer tbl reg s rq post,
+  (forall pre l mid,
+     forallb (fun o => negb (rq_is_limits o)) mid = true ->
+     nth_error (rq_run_with answer tbl reg s (pre ++ OLimits l :: mid ++ ORequest rq :: post))
+               (rq_count_requests (pre ++ mid)) =
+     Some (rq_handle_with answer l (rq_rib_after (st_rib s) (pre ++ mid)) tbl reg rq)) /\
+  (forall pre,
+     forallb (fun o => negb (rq_is_limits o)) pre = true ->
+     nth_error (rq_run_with answer tbl reg s (pre ++ ORequest rq :: post)) (rq_count_requests pre) =
+     Some (rq_handle_with answer (st_lim s) (rq_rib_after (st_rib s) pre) tbl reg rq)).
+Proof. exact limit_is_current. Qed.
+Print Assumptions C11_limit_is_current.
+
+(* what a client sees: after a reconfiguration to [l], a moreSpecifics request for a
+   prefix shorter than l's limit is refused, one at or beyond it is not judged by length *)
+Theorem C11_reconfigured_limit_decides : forall tbl reg s pre l mid rq post q inc,
+  forallb (fun o => negb (rq_is_limits o)) mid = true ->
+  rq_prefix_of rq = Some q ->
+  rq_parse_include (rq_params (rq_raw rq)) = Some inc -> i_more inc = true ->
+  let resp := nth_error (rq_run tbl reg s (pre ++ OLimits l :: mid ++ ORequest rq :: post)) (rq_count_requests (pre ++ mid)) in
+  (rq_len q < rq_limit l (rq_v6 rq) -> resp = Some RBad) /\
+  (rq_limit l (rq_v6 rq) <= rq_len q ->
+   resp = Some (rq_handle (MkLim 0 0) (rq_rib_after (st_rib s) (pre ++ mid)) tbl reg rq)).
+Proof. exact reconfigured_limit_decides. Qed.
+Print Assumptions C11_reconfigured_limit_decides.
+
+(* non-vacuity of the two: created with /8 as limit, 10.0.0.0/8 and a /9 stored; the
+   moreSpecifics request for 10.0.0.0/8 is answered, refused after a reconfiguration
+   to /16 (and an unrelated update), answered again after one to /4 *)
+Example C11_limit_history_example :
+  let r := w_rib [(0, w_v4 167772160 8); (0, w_v4 167772160 9)] in
+  let rq := MkRequest false (w_bits 167772160 32) 8 (Some w_raw_more) in
+  let mid := [OUpdate (UWithdraw 9 None)] in
+  forallb (fun o => negb (rq_is_limits o)) mid = true /\
+  exists a,
+    rq_run w_attrs w_reg (MkSt (MkLim 8 19) r)
+           ([ORequest rq] ++ OLimits (MkLim 16 19) :: mid ++ ORequest rq :: [OLimits (MkLim 4 19); ORequest rq])
+    = [RJson a; RBad; RJson a] /\
+    a_more a = Some [MkEntry (rq_code (w_v4 167772160 9)) 1 true 7].
+Proof. exact limit_history_example. Qed.
+
 (* ---- where the code departs from the property (each reproduced on the real code) *)
 (* 10.1.0.0/16 is stored; the more specifics of 10.0.0.0/8 come back empty *)
 Theorem C11_more_specifics_omits_refuted :
